@@ -340,7 +340,7 @@ def _check(verif, repo, prop, tier, seed, use_cache, write_evidence, t0, selftes
     # ---- a failed obligation is a violation only if NO solver seed discharges it: one accepted run of the verifier
     #      is a proof (sound), while a single failure may be Z3 giving up (incompleteness / instability) ----
     rescued = {}
-    if new and not extra:
+    if new and not extra and not os.environ.get('VERIF_NO_RESEED'):   # (the matrix tool skips the re-runs to save time)
         for k in (11, 12):
             try:
                 rr = _check(verif, repo, prop, 'quick', seed, use_cache, False, time.time(), selftest=True,
